@@ -15,6 +15,9 @@ struct Case {  // everything needed to re-execute one simulated call
     Op op;     // includes the fault plan
     HeapKnobs knobs;
     uint64_t fillSeed = 0;
+    // "the call failed, the caller retries": if set, the same operation is first executed under THIS fault plan on the
+    // same (freshly created) thread, its outcome is discarded, and then the operation itself is executed and judged
+    FaultPlan retryAfter;
     JP toJson() const;
     static Case fromJson(const JVal &j);
 };
@@ -27,7 +30,8 @@ struct Verdict {
 
 extern double g_wallLimit;  // watchdog per call (s); verdicts are re-confirmed
 
-ExecReport simExec(const Case &c, bool linkedAuditHook = false);
+ExecReport simExec(const Case &c, bool linkedAuditHook = false);   // on a thread created for it
+
 // Oracles.  ref = result of the same op on the REF copy (default allocator).
 std::vector<Verdict> judgeC17(const Case &c, const Result &ref,
                               const ExecReport &rep);
